@@ -120,7 +120,9 @@ fn run(line: &str) -> String {
         if let Some(d) = op.strip_prefix("adv:") {
             let dt: f32 = if d.starts_with("0x") { f32::from_bits(u32::from_str_radix(&d[2..], 16).unwrap()) } else { d.parse().unwrap() };
             anim.advance(dt);
-            r.t += Duration::from_secs_f32(dt); r.eval();
+            // documented accumulation: the elapsed Durations are added up, saturating at Duration::MAX for astronomically large steps
+            let step = match Duration::try_from_secs_f32(dt) { Ok(d) => d, Err(_) if dt > 0.0 => Duration::MAX, Err(_) => Duration::from_secs_f32(dt) };
+            r.t = r.t.saturating_add(step); r.eval();
         } else if let Some(s) = op.strip_prefix("set:") {
             let s: usize = s.parse().unwrap();
             anim.set_state(&STATES[s]);
